@@ -166,6 +166,7 @@ type Table struct {
 	W     uint8 // element width
 	IdxW  uint8
 	h     uint64
+	IsBool bool
 }
 
 type tkey struct {
@@ -761,6 +762,9 @@ func (f *Factory) Resize(a *Term, w uint8, signed bool) *Term {
 func (f *Factory) TblSel(t *Table, idx *Term) *Term {
 	if idx.op == OpConst {
 		if idx.c < uint64(len(t.Vals)) {
+			if t.IsBool {
+				return Bool(t.Vals[idx.c] != 0)
+			}
 			return Const(t.Vals[idx.c], t.W)
 		}
 		panic("table index out of range")
@@ -768,7 +772,11 @@ func (f *Factory) TblSel(t *Table, idx *Term) *Term {
 	if idx.w != t.IdxW {
 		idx = f.Resize(idx, t.IdxW, false)
 	}
-	return f.mk(OpTbl, t.W, uint64(t.ID), idx, nil, nil)
+	r := f.mk(OpTbl, t.W, uint64(t.ID), idx, nil, nil)
+	if t.IsBool {
+		return f.Cmp(OpEq, r, Const(1, 1))
+	}
+	return r
 }
 
 // generic unary/binary FP ops over bit patterns
@@ -947,7 +955,7 @@ func (p *smtPrinter) expr(t *Term) string {
 		s = fmt.Sprintf("(ite %s %s %s)", p.expr(t.a), p.expr(t.b), p.expr(t.d))
 	case OpTbl:
 		p.tables[int(t.c)] = true
-		s = fmt.Sprintf("(tbl_%d %s)", t.c, p.expr(t.a))
+		s = fmt.Sprintf("(%s %s)", tableName(p.f.tables[t.c]), p.expr(t.a))
 	case OpFLt, OpFLe, OpFEq:
 		s = fmt.Sprintf("(%s (%s %s) (%s %s))", opNames[t.op], fpConv(t.a.w), p.expr(t.a), fpConv(t.b.w), p.expr(t.b))
 	case OpFIsNaN:
@@ -1023,12 +1031,19 @@ func tableDef(tb *Table) string {
 		mid := (lo + hi) / 2
 		return fmt.Sprintf("(ite (bvult i %s) %s %s)", constStr(uint64(mid), tb.IdxW), rec(lo, mid), rec(mid, hi))
 	}
-	return fmt.Sprintf("(define-fun tbl_%d ((i (_ BitVec %d))) (_ BitVec %d) %s)\n", tb.ID, tb.IdxW, tb.W, rec(0, len(tb.Vals)))
+	return fmt.Sprintf("(define-fun %s ((i (_ BitVec %d))) (_ BitVec %d) %s)\n", tableName(tb), tb.IdxW, tb.W, rec(0, len(tb.Vals)))
 }
 
-// BuildQuery renders `asserts` (conjunction) as an SMT-LIB script body (declarations,
-// definitions, assertions). Returns script text and the list of variables used.
-func (f *Factory) BuildQuery(asserts []*Term) (string, []VarInfo) {
+type Decl struct{ Name, Text string }
+
+type Query struct {
+	Decls []Decl // global declarations (variables, tables): sent once per solver process
+	Body  string // scoped definitions and assertions
+	Used  []VarInfo
+}
+
+// BuildQuery renders `asserts` (conjunction) as SMT-LIB text.
+func (f *Factory) BuildQuery(asserts []*Term) *Query {
 	p := &smtPrinter{f: f, names: map[uint32]string{}, vars: map[uint16]bool{}, tables: map[int]bool{}, refs: map[uint32]int{}}
 	for _, a := range asserts {
 		p.countRefs(a)
@@ -1037,17 +1052,17 @@ func (f *Factory) BuildQuery(asserts []*Term) (string, []VarInfo) {
 	for _, a := range asserts {
 		fmt.Fprintf(&as, "(assert %s)\n", p.expr(a))
 	}
-	var out strings.Builder
+	q := &Query{}
 	vidx := make([]int, 0, len(p.vars))
 	for v := range p.vars {
 		vidx = append(vidx, int(v))
 	}
 	sort.Ints(vidx)
-	var used []VarInfo
 	for _, v := range vidx {
 		vi := f.vars[v]
-		used = append(used, vi)
-		fmt.Fprintf(&out, "(declare-const %s %s)\n", smtVarName(vi.Name), sortOf(vi.W))
+		q.Used = append(q.Used, vi)
+		nm := smtVarName(vi.Name)
+		q.Decls = append(q.Decls, Decl{nm, fmt.Sprintf("(declare-const %s %s)\n", nm, sortOf(vi.W))})
 	}
 	tids := make([]int, 0, len(p.tables))
 	for t := range p.tables {
@@ -1055,12 +1070,14 @@ func (f *Factory) BuildQuery(asserts []*Term) (string, []VarInfo) {
 	}
 	sort.Ints(tids)
 	for _, t := range tids {
-		out.WriteString(tableDef(f.tables[t]))
+		tb := f.tables[t]
+		q.Decls = append(q.Decls, Decl{tableName(tb), tableDef(tb)})
 	}
-	out.WriteString(p.defs.String())
-	out.WriteString(as.String())
-	return out.String(), used
+	q.Body = p.defs.String() + as.String()
+	return q
 }
+
+func tableName(tb *Table) string { return fmt.Sprintf("tbl_%d_%d_%x", tb.W, len(tb.Vals), tb.h) }
 
 func (f *Factory) String(t *Term) string {
 	p := &smtPrinter{f: f, names: map[uint32]string{}, vars: map[uint16]bool{}, tables: map[int]bool{}, refs: map[uint32]int{}}
